@@ -531,6 +531,10 @@ def match_f41(f: dict) -> bool:
     before, after = f['expected'], f['observed']
     under = lambda k: any(k.startswith(q + '/') for q in added)
     hidden = [k for k in _ann(before) if under(k)]
+    # a write of ANOTHER operator may at the same time show F5 (its unmarkable 'kopf.*' prefix): set those keys aside
+    f5 = [q for q in f['case'].get('other_prefixes', []) if _kopf_unmarkable(q)] if f['sig'] == 'other-operator-visible' else []
+    aside = lambda k: any(k.startswith(q + '/') for q in f5)
+    before, after = _without_ann(before, aside), _without_ann(after, aside)
     return bool(hidden) and not any(under(k) for k in _ann(after)) and strict_eq(_without_ann(before, under), after)
 
 
@@ -849,7 +853,7 @@ def run(ctx: fw.Ctx) -> int:
         ctx.count('corpus', c['kind'])
 
     # ================= diff / reduce =================
-    n_pairs = ctx.scale(1000, 15000)
+    n_pairs = ctx.scale(1000, 8000)
     for i in range(n_pairs):
         a = G.obj(3, nkeys=(1, 2, 3, 4)) if r.random() < 0.85 else G.json(3)
         b = mutate_json(r, G, a) if r.random() < 0.85 else G.json(3)
@@ -932,7 +936,7 @@ def run(ctx: fw.Ctx) -> int:
         add_diff_case(a, b, src, 'full')
 
     # ================= essence: build, clear o build, old/new/diff, own writes, other operators =================
-    n = ctx.scale(400, 3000)
+    n = ctx.scale(400, 1500)
     for i in range(n):
         op = gen_operator(r)
         others = [gen_operator(r) for _ in range(r.choice([0, 0, 1, 1, 2]))]
